@@ -99,9 +99,9 @@ theorem reply_msg_facts (st : Store) (hs : StoreOK st) (b e n : Int) (m : OutMsg
     simp only [replayable, Bool.and_eq_true, Bool.not_eq_eq_eq_not, Bool.not_true] at h3
     exact ⟨(hs.ent _ hmem).1, h3.1⟩
 
-theorem seg_of_chain (st : Store) {a c : Int} {reps : List Rep} (hc : Chain a reps c)
-    (hw : ∀ r ∈ reps, Wire st r.out) (hm : ∀ n m, Rep.msg n m ∈ reps → m.seq = n ∧ isAdminKind m.kind = false) :
-    Seg st a (reps.map Rep.out) c := by
+theorem seg_of_chain (st : Store) (lt : Option Int) {a c : Int} {reps : List Rep} (hc : Chain a reps c)
+    (hw : ∀ r ∈ reps, Wire st (Rep.outR lt r)) (hm : ∀ n m, Rep.msg n m ∈ reps → m.seq = n ∧ isAdminKind m.kind = false) :
+    Seg st a (reps.map (Rep.outR lt)) c := by
   induction hc with
   | nil a => exact .nil a
   | @cons a c r rest hlo hne h ih =>
@@ -110,7 +110,7 @@ theorem seg_of_chain (st : Store) {a c : Int} {reps : List Rep} (hc : Chain a re
     | gap x y =>
       simp only [Rep.lo] at hlo
       subst hlo
-      exact .gap (hw _ List.mem_cons_self) ih'
+      exact .gap (lt := lt) (hw _ List.mem_cons_self) ih'
     | msg n m =>
       simp only [Rep.lo] at hlo
       subst hlo
@@ -119,9 +119,9 @@ theorem seg_of_chain (st : Store) {a c : Int} {reps : List Rep} (hc : Chain a re
 
 /-- the reply to a ResendRequest for `[b, e]` (every number of the range stored) is a run covering `b … e` -/
 theorem seg_reply (st : Store) (hs : StoreOK st) (b e : Int) (hlo : -9223372036854775808 ≤ b) (hbe : b ≤ e) (he : e ≤ st.sender - 1)
-    (hall : st.HoldsAll b e) : Seg st b (replyPlan true st b e) (e + 1) :=
-  seg_of_chain st (C03_cover st b e hbe hall)
-    (fun r hr => wire_reply st hs b e hlo he r.out (List.mem_map.2 ⟨r, hr, rfl⟩))
+    (lt : Option Int) (hall : st.HoldsAll b e) : Seg st b (replyPlanR lt true st b e) (e + 1) :=
+  seg_of_chain st lt (C03_cover st b e hbe hall)
+    (fun r hr => wire_reply st hs lt b e hlo he (Rep.outR lt r) (List.mem_map.2 ⟨r, hr, rfl⟩))
     (fun n m hr => reply_msg_facts st hs b e n m hr)
 
 /-! ### every number used is stored -/
